@@ -461,7 +461,23 @@ def check_C09(ctx):
     return finish(ctx)
 
 
-CHECKS = {"C09": check_C09, "C07": check_C07, "C08": check_C08, "C01": check_C01, "C02": check_C02, "C03": check_C03, "C04": check_C04, "C05": check_C05, "C06": check_C06}
+def check_C10(ctx):
+    ctx.rule = ("TLC explores the arena machine (slot table + term vector with reserved slot 0) for every sequence of <=5 inserts over the border id classes "
+                "{0, 1, inner, last id of the table, first id outside, far outside (u32::MAX)} incl. duplicates and out-of-range inserts, checking SlotBijective/Slot0Reserved/GetExact/LenAgrees/IterOnce; "
+                "each sequence is replayed on the real Builder (two concretisations), lookups are compared for all probe ids and their neighbours, and for a sample of the behaviours hpo(id) is swept over "
+                "EVERY id of 0..10^7+16 and the top 65536 ids of u32 (thorough: the entire u32 space on some); name lookups: every assignment of 6 names over a 2-letter alphabet to 3 diseases/genes "
+                "(duplicates, empty name) x every query of length <=3, rendered in ASCII and multi-byte alphabets; non-trivial = at least 2 terms present / any name line")
+    outs = [tlc(ctx, "mc/MC_Lookup.cfg", "mc/MC_Lookup.tla")["out"], tlc(ctx, "mc/MC_Names.cfg", "mc/MC_Names.tla")["out"]]
+    allout = concat(ctx, outs, "c10-lines.txt")
+    s = hv(ctx, "replay-lookup", prop="C10", **{"in": allout}, sweep_every=(40 if ctx.quick else 4), full_u32=(0 if ctx.quick else 1))
+    ctx.traces += s.get("cases", 0)
+    ctx.extra["full_id_space_sweeps"] = s.get("counters", {}).get("full_id_space_sweeps", 0)
+    ctx.extra["full_u32_sweeps"] = s.get("counters", {}).get("full_u32_sweeps", 0)
+    ctx.assumptions += ["inserting an id >= 10^7 panics before any mutation (modelled as InsertPanics); if the crate ever accepts such an id the check requires it to be found again"]
+    return finish(ctx)
+
+
+CHECKS = {"C10": check_C10, "C09": check_C09, "C07": check_C07, "C08": check_C08, "C01": check_C01, "C02": check_C02, "C03": check_C03, "C04": check_C04, "C05": check_C05, "C06": check_C06}
 
 
 def run_check(prop, tier, seed):
